@@ -967,7 +967,10 @@ def check_end_guards(ck, rule, label, prog, body, input_param=1):
             continue
         a = affine(other)
         syms = [k for k in (a or {}) if k != ()]
-        if a is None or len(syms) > 1 or (syms and (a[syms[0]] != 1 or not str(syms[0]).startswith("idx#"))):
+        # `offset` may be the running index itself or the index already advanced by decoded lengths (test at the bottom of the loop)
+        idx_syms = [k for k in syms if str(k).startswith("idx#")]
+        len_syms = [k for k in syms if re.match(r"^(u32|u16|u8|byte)\[", str(k))]
+        if a is None or len(idx_syms) > 1 or (syms and (len(idx_syms) != 1 or a[idx_syms[0]] != 1 or len(idx_syms) + len(len_syms) != len(syms))):
             ck.undecided(rule, "%s/end-guard@%s" % (label, cs["line"]), "%s ends its iteration on a comparison of the input length with %s, which is not `consumed offset + constant`" % (body.short, show(other)), where=body.where(cs["line"]))
             n += 1
             continue
@@ -983,6 +986,17 @@ def check_end_guards(ck, rule, label, prog, body, input_param=1):
             ok, cond = False, "remaining %s %d" % ("/".join(sorted(stop)), c0)
         n += 1
         ck.ob(rule, "%s/end-guard@%s" % (label, "len" if not syms else "offset"), ok, "%s stops reading records when %s%s" % (body.short, cond, " (nothing is left)" if ok else ": a trailing record shorter than that is dropped without an error"), where=body.where(cs["line"]))
+        # the test stands BEFORE the first read of every iteration (an empty section is valid: with the test at the bottom of the loop
+        # the first record is read from nothing)
+        inner = [bl for h, bl in loops.items() if cs["bb"] in bl]
+        if inner and ok:
+            lp = min(inner, key=len)
+            cont = [tg for k, tg in cases.items() if k not in stop and tg is not None and tg in lp]
+            reads = sorted({pos[0] for pos, acc in R.accesses.items() if pos[0] in lp})
+            if cont and reads:
+                unguarded = [rb_ for rb_ in reads if not any(body.edge_dominates((cs["bb"], tg), rb_) for tg in cont)]
+                ck.ob(rule, "%s/end-guard-first" % label, not unguarded, "%s %s" % (body.short, "tests for the end of the section before every read of a record" if not unguarded else
+                      "reads a record (line %s) before the end-of-section test has run: an empty section (no record at all) is read out of bounds" % body.blocks[unguarded[0]].term.line), where=body.where(body.blocks[unguarded[0]].term.line if unguarded else cs["line"]))
     # emptiness tests through is_empty()
     for bi, t in body.calls():
         if t.callee.method == "is_empty" and t.args and params_of(R.pv.of_operand(body, t.args[0]), body.id) == {input_param}:
